@@ -76,7 +76,7 @@ h!(c18_succ_to_2038, 71, {
     succ_body(24837);
 });
 
-//@ prop=C18 tier=thorough cost=2500 fns="muxer::mp4::days_to_ymd,is_leap_year" bound="all days d < 54787 (1970 .. 2119, includes the non-leap century year 2100): result is a valid date in the right year window (single call)" unwind=153 timeout=7000 mem=30
+//@ prop=C18 tier=thorough cost=4742 fns="muxer::mp4::days_to_ymd,is_leap_year" bound="all days d < 54787 (1970 .. 2119, includes the non-leap century year 2100): result is a valid date in the right year window (single call)" unwind=153 timeout=7000 mem=30
 h!(c18_valid_to_2120, 153, {
     let d: u64 = kani::any();
     kani::assume(d < 54787);
@@ -106,11 +106,11 @@ fn lang_body(f: fn(&str) -> [u8; 2]) {
     assert!((v & 0x1f) as u8 + 0x60 == l[2], "third letter recoverable");
     crate::vcover!(l[0] == b'z' && l[2] == b'a', "zxa-like code");
 }
-//@ prop=C18 tier=quick cost=60 fns="muxer::mp4::encode_language_code" bound="all 26^3 lower-case codes" unwind=8
+//@ prop=C18 tier=quick cost=23 fns="muxer::mp4::encode_language_code" bound="all 26^3 lower-case codes" unwind=8
 h!(c18_lang_progressive, 8, {
     lang_body(mp4h::encode_language_code);
 });
-//@ prop=C18 tier=quick cost=60 fns="fragmented::encode_language_code" bound="all 26^3 lower-case codes" unwind=8
+//@ prop=C18 tier=quick cost=25 fns="fragmented::encode_language_code" bound="all 26^3 lower-case codes" unwind=8
 h!(c18_lang_fragmented, 8, {
     lang_body(fh::encode_language_code);
 });
@@ -232,10 +232,10 @@ udta_title_h!(c18_udta_title3, 3);
 udta_title_h!(c18_udta_title4, 4);
 //@ prop=C18 tier=thorough cost=30 fns="muxer::mp4::build_udta_box,build_ilst_string_item" bound="all well-formed UTF-8 titles of 1 byte" unwind=12 covers_optional="multi-byte"
 udta_title_h!(c18_udta_title1, 1);
-//@ prop=C18 tier=quick cost=30 fns="muxer::mp4::build_udta_box,build_ilst_string_item" bound="the empty title" unwind=12 covers_optional="multi-byte"
+//@ prop=C18 tier=quick cost=44 fns="muxer::mp4::build_udta_box,build_ilst_string_item" bound="the empty title" unwind=12 covers_optional="multi-byte"
 udta_title_h!(c18_udta_title0, 0);
 
-//@ prop=C18 tier=quick cost=30 fns="muxer::mp4::build_udta_box" bound="no title, no creation time; language present/absent" unwind=12
+//@ prop=C18 tier=quick cost=5 fns="muxer::mp4::build_udta_box" bound="no title, no creation time; language present/absent" unwind=12
 h!(c18_udta_absent, 12, {
     let md = Metadata { title: None, creation_time: None, language: kani::any::<bool>().then(|| String::from("eng")) };
     let out = mp4h::build_udta_box(&md);
@@ -268,7 +268,7 @@ fn udta_day_body(with_title: bool) {
     crate::vcover!(true, "reached");
     core::mem::forget(md);
 }
-//@ prop=C18 tier=quick cost=60 fns="muxer::mp4::build_udta_box,build_ilst_string_item,format_unix_timestamp" bound="2 symbolic ASCII title bytes + any creation time < 800 days; date TEXT stubbed out (fmt::format -> empty): item structure/order only" unwind=12 stubs="fmt::format"
+//@ prop=C18 tier=quick cost=108 fns="muxer::mp4::build_udta_box,build_ilst_string_item,format_unix_timestamp" bound="2 symbolic ASCII title bytes + any creation time < 800 days; date TEXT stubbed out (fmt::format -> empty): item structure/order only" unwind=12 stubs="fmt::format"
 #[kani::proof]
 #[kani::unwind(12)]
 #[kani::stub(muxide::invariant_ppt::__assert_invariant_impl, crate::stubs::assert_invariant_stub)]
